@@ -38,6 +38,7 @@ func init() {
 	imp("C05", "C15", map[string]string{"R15.8": "R5.12"}, "(R5.12 = C15 R15.8) every referenced custom resource is restored before Finalise reports done.")
 	extend("C16", "(R16.8) every loop of the Lua/JSON bridge whose condition depends on a cursor advances the cursor on every way round (a `continue` before the advance spins forever inside a Go call no Lua deadline can interrupt); (R16.9) Decode does not switch the JSON decoder to json.Number while DecodeValue turns json.Number into a Lua string (numbers would reach scripts as strings).", r4C16)
 	extend("C17", "(R17.7) every call of ResolveFenceposts passes both the strategy's maxSurge and its maxUnavailable: the zero/zero correction depends on both.", r4C17)
+	extend("C17", "(R17.8) in the advanced deployment controller no list of ReplicaSets is sorted in place while another list that may share its backing array (the two sides of `all := append(old, new)`) is still read: the sort would move the new ReplicaSet into the old-ReplicaSet list.", r4C17b)
 	extend("C19", "(R19.7) every List issued by the controllers, webhooks and finders is restricted to one namespace (InNamespace or ListOptions.Namespace), directly or by every caller that supplies the options — a label that carries only an object name matches same-named objects of other namespaces; (R19.8) UpdateFinalizer computes the new finalizer list from the object it has just fetched, not from the caller's (possibly stale) copy: two rollouts sharing a TrafficRouting would overwrite each other's finalizers.", r4C19)
 	imp("C18", "C19", map[string]string{"R19.8": "R18.8"}, "(R18.8 = C19 R19.8) a finalizer is added or removed on the fresh list, so no other holder's finalizer is dropped or resurrected.")
 	extend("C20", "(R20.5) an early successful return of a converter that is taken because an optional block of the source is absent skips only writes that depend on that block: everything else (conditions, phase, message …) has been written before the return is possible.", r4C20)
@@ -1313,4 +1314,218 @@ func finalizerSources(p *Program, v ssa.Value, depth int) (roots []ssa.Value, fo
 		}
 	}
 	return roots, foreign
+}
+
+// ---------------------------------------------------------------- C17 R17.8
+
+// sliceRoot strips conversions so that a slice and its typed views (sort.Interface adapters) are one value.
+func sliceRoot(v ssa.Value) ssa.Value {
+	for i := 0; i < 16; i++ {
+		switch x := v.(type) {
+		case *ssa.MakeInterface:
+			v = x.X
+		case *ssa.ChangeType:
+			v = x.X
+		case *ssa.Convert:
+			v = x.X
+		case *ssa.ChangeInterface:
+			v = x.X
+		default:
+			return Forwarded(v)
+		}
+	}
+	return v
+}
+
+func r4C17b(c *Ctx) {
+	p := c.Prog
+	c.Rule("R17.8", "a ReplicaSet list is not re-ordered in place while another list that may share its backing array is still read", 1)
+	var fns []*ssa.Function
+	for _, fn := range p.RepoFuncs() {
+		if strings.HasPrefix(FuncName(fn), "pkg/controller/deployment") {
+			fns = append(fns, fn)
+		}
+	}
+	if len(fns) == 0 {
+		c.Unresolved("R17.8", "functions of pkg/controller/deployment")
+		return
+	}
+	isSortCall := func(ci ssa.CallInstruction) bool {
+		cn := CalleeName(ci.Common())
+		return cn == "sort.Sort" || cn == "sort.Stable" || cn == "sort.Slice" || cn == "sort.SliceStable" || strings.HasPrefix(cn, "slices.Sort")
+	}
+	// sorted[f][i]: f re-orders the slice passed as parameter i
+	sorted := map[*ssa.Function]map[int]bool{}
+	paramIndex := func(f *ssa.Function, v ssa.Value) int {
+		for i, q := range f.Params {
+			if ssa.Value(q) == v {
+				return i
+			}
+		}
+		return -1
+	}
+	// sortSites(f): instructions in f that re-order a slice value, with that value
+	type sortSite struct {
+		in  ssa.Instruction
+		val ssa.Value
+	}
+	sortSites := func(f *ssa.Function) []sortSite {
+		var out []sortSite
+		for _, ci := range AllCalls(f) {
+			if isSortCall(ci) && len(ci.Common().Args) > 0 {
+				out = append(out, sortSite{ci.(ssa.Instruction), sliceRoot(ci.Common().Args[0])})
+				continue
+			}
+			for _, g := range p.Callees(ci) {
+				for j := range sorted[g] {
+					args := ci.Common().Args
+					if ci.Common().IsInvoke() {
+						continue
+					}
+					if j < len(args) {
+						out = append(out, sortSite{ci.(ssa.Instruction), sliceRoot(args[j])})
+					}
+				}
+			}
+		}
+		return out
+	}
+	for changed := true; changed; {
+		changed = false
+		for _, f := range fns {
+			for _, s := range sortSites(f) {
+				if i := paramIndex(f, s.val); i >= 0 {
+					if sorted[f] == nil {
+						sorted[f] = map[int]bool{}
+					}
+					if !sorted[f][i] {
+						sorted[f][i] = true
+						changed = true
+					}
+				}
+			}
+		}
+	}
+	// alias pairs per function: (x, append(x, ...)) and parameter pairs inherited from call sites
+	type pair struct{ a, b ssa.Value }
+	pairs := map[*ssa.Function][]pair{}
+	addPair := func(f *ssa.Function, a, b ssa.Value) bool {
+		for _, q := range pairs[f] {
+			if (q.a == a && q.b == b) || (q.a == b && q.b == a) {
+				return false
+			}
+		}
+		pairs[f] = append(pairs[f], pair{a, b})
+		return true
+	}
+	for _, f := range fns {
+		for _, ci := range AllCalls(f) {
+			bi, ok := ci.Common().Value.(*ssa.Builtin)
+			if !ok || bi.Name() != "append" || len(ci.Common().Args) == 0 {
+				continue
+			}
+			x := sliceRoot(ci.Common().Args[0])
+			if k, isC := x.(*ssa.Const); isC && k.IsNil() {
+				continue
+			}
+			if sl, isS := x.(*ssa.Slice); isS {
+				if _, isA := sl.X.(*ssa.Alloc); isA {
+					continue // a fresh literal
+				}
+			}
+			// y = append(y, e) re-assigned to the same variable is the ordinary accumulator, not two lists
+			res := ci.(ssa.Value)
+			addPair(f, x, res)
+		}
+	}
+	same := func(f *ssa.Function, u, v ssa.Value) bool {
+		if u == v {
+			return true
+		}
+		// through phis that merge the value with itself or with later versions of the same variable
+		return false
+	}
+	for changed := true; changed; {
+		changed = false
+		for _, f := range fns {
+			for _, ci := range AllCalls(f) {
+				if ci.Common().IsInvoke() {
+					continue
+				}
+				g := ci.Common().StaticCallee()
+				if g == nil || g.Blocks == nil {
+					continue
+				}
+				args := ci.Common().Args
+				for _, pr := range pairs[f] {
+					for i := range args {
+						for j := range args {
+							if i == j || i >= len(g.Params) || j >= len(g.Params) {
+								continue
+							}
+							if same(f, sliceRoot(args[i]), pr.a) && same(f, sliceRoot(args[j]), pr.b) {
+								if addPair(g, g.Params[i], g.Params[j]) {
+									changed = true
+								}
+							}
+						}
+					}
+				}
+			}
+		}
+	}
+	readsElems := func(v ssa.Value) func(ssa.Instruction) bool {
+		return func(in ssa.Instruction) bool {
+			switch x := in.(type) {
+			case *ssa.Range:
+				return sliceRoot(x.X) == v
+			case *ssa.IndexAddr:
+				return sliceRoot(x.X) == v
+			case *ssa.Index:
+				return sliceRoot(x.X) == v
+			case ssa.CallInstruction:
+				if bi, ok := x.Common().Value.(*ssa.Builtin); ok && (bi.Name() == "len" || bi.Name() == "cap") {
+					return false
+				}
+				for _, a := range x.Common().Args {
+					if sliceRoot(a) == v {
+						return true
+					}
+				}
+			}
+			return false
+		}
+	}
+	n := 0
+	for _, f := range fns {
+		for _, pr := range pairs[f] {
+			n++
+			bad := ""
+			for _, s := range sortSites(f) {
+				var other ssa.Value
+				switch s.val {
+				case pr.a:
+					other = pr.b
+				case pr.b:
+					other = pr.a
+				default:
+					continue
+				}
+				// the two lists share an array only from the append on: a sort before it is harmless
+				if ap, isInstr := pr.b.(ssa.Instruction); isInstr && ap.Parent() == f {
+					if r, _ := CanReach(PointAfter(ap), func(in ssa.Instruction) bool { return in == s.in }, ReachOpts{}); !r {
+						continue
+					}
+				}
+				if r, at := CanReach(PointAfter(s.in), readsElems(other), ReachOpts{}); r {
+					bad = "the list " + TermOf(s.val).String() + " is re-ordered in place at " + p.Pos(s.in.Pos()) + " and " + TermOf(other).String() + ", which may share its backing array (it is the other side of an append), is read afterwards at " + p.Pos(at.Pos())
+				}
+			}
+			c.Ob("R17.8", shortName(FuncName(f))+"#alias("+TermOf(pr.a).String()+","+TermOf(pr.b).String()+")", f.Pos(), bad == "", "no in-place re-ordering of one list while the list it was appended from is still read",
+				ifs(bad != "", bad+": when the appended-to list has spare capacity both share one array, the sort moves elements across the boundary and the old-ReplicaSet list suddenly contains the new ReplicaSet (it is then scaled down) and misses an old one"))
+		}
+	}
+	if n == 0 {
+		c.Unresolved("R17.8", "append-derived list pairs in pkg/controller/deployment")
+	}
 }
